@@ -293,7 +293,17 @@ impl Report {
             return;
         }
         if g.len() < self.max_violations {
-            g.push(Violation { key: key.to_string(), what: what.to_string(), case });
+            // keep human text printable: a 65536-value frame dump does not belong on a DETAIL line
+            let mut what = what.to_string();
+            if what.len() > 1500 {
+                let mut cut = 1500;
+                while !what.is_char_boundary(cut) {
+                    cut -= 1;
+                }
+                what.truncate(cut);
+                what.push_str(" ...[truncated]");
+            }
+            g.push(Violation { key: key.to_string(), what, case });
         }
     }
     pub fn violation_count(&self) -> usize {
